@@ -511,3 +511,84 @@ Proof.
     destruct (x =? cBS); [rewrite !orb_true_r; discriminate|reflexivity]. }
   rewrite He, Hb, Hl. reflexivity.
 Qed.
+
+(* ------------------------------------------------------------------ *)
+(* bytes keys whose repr needs no escape                               *)
+(* ------------------------------------------------------------------ *)
+Definition simplech (c : N) : bool := (32 <=? c) && (c <=? 126) && negb (c =? cBS).
+
+Lemma flat_map_single {A} (f : A -> list A) (l : list A) :
+  forallb (fun c => match f c with [x] => true | _ => false end) l = true ->
+  (forall c, In c l -> forall x, f c = [x] -> x = c) -> flat_map f l = l.
+Proof.
+  induction l as [|c r IH]; cbn [forallb flat_map]; intros H Hx; [reflexivity|].
+  apply andb_true_iff in H. destruct H as [Hc Hr].
+  destruct (f c) as [|x [|y t]] eqn:E; try discriminate.
+  rewrite (Hx c (or_introl eq_refl) x E). cbn [app]. f_equal.
+  apply IH; [exact Hr|]. intros c' Hin. apply Hx. now right.
+Qed.
+
+Lemma repr_bytes_simple (s : pystr) :
+  bytes_ok s = true ->
+  exists q, is_quote q = true /\ has_char q s = false /\ repr_bytes s = 98 :: q :: s ++ [q].
+Proof.
+  unfold bytes_ok. intros H. apply andb_true_iff in H. destruct H as [Hs Hb].
+  apply negb_true_iff in Hb. unfold repr_bytes.
+  set (q := if has_char cSQ s && negb (has_char cDQ s) then cDQ else cSQ).
+  assert (Hq : is_quote q = true) by (subst q; destruct (has_char cSQ s && negb (has_char cDQ s)); reflexivity).
+  assert (Hqs : has_char q s = false).
+  { subst q. destruct (has_char cSQ s) eqn:H1; destruct (has_char cDQ s) eqn:H2; cbn [andb negb] in *;
+      try discriminate; assumption. }
+  exists q. repeat split; [exact Hq|exact Hqs|].
+  cbn [app]. f_equal. f_equal. f_equal.
+  apply has_char_false_forall in Hqs.
+  clear Hb. clearbody q. induction s as [|c r IH]; [reflexivity|].
+  cbn [forallb] in Hs, Hqs. apply andb_true_iff in Hs. destruct Hs as [Hc Hr].
+  apply andb_true_iff in Hqs. destruct Hqs as [Hcq Hrq].
+  cbn [flat_map]. rewrite (IH Hr Hrq).
+  assert (E1 : (c =? q) || (c =? cBS) = false) by (unfold cBS in *; lia).
+  assert (E2 : (c =? 9) = false) by lia. assert (E3 : (c =? 10) = false) by lia.
+  assert (E4 : (c =? 13) = false) by lia. assert (E5 : (c <? 32) || (127 <=? c) = false) by lia.
+  rewrite E1, E2, E3, E4, E5. reflexivity.
+Qed.
+
+Lemma literal_eval_bytes (q : N) (s : pystr) :
+  is_quote q = true -> has_char q s = false -> forallb simplech s = true ->
+  literal_eval (98 :: q :: s ++ [q]) = LOk (ABytes s).
+Proof.
+  intros Hq Hs Hsim.
+  rewrite literal_eval_core; [|discriminate|reflexivity|].
+  2:{ replace (98 :: q :: s ++ [q]) with ((98 :: q :: s) ++ [q]) by reflexivity.
+      rewrite last_last. now apply is_quote_not_ws. }
+  unfold core_eval. cbn [existsb]. rewrite Hq. rewrite orb_true_r. cbn [orb].
+  unfold quoted_eval.
+  replace (98 :: q :: s ++ [q]) with ([98] ++ q :: s ++ [q]) by reflexivity.
+  rewrite span_app_stop; [|reflexivity|now rewrite Hq].
+  rewrite rev_unit, N.eqb_refl, rev_involutive, Hs.
+  change (prefix_kind_of [98]) with PBytes. cbv beta iota.
+  assert (H1 : existsb (fun c => (c =? cNL) || (c =? 13) || (c =? 0)) s = false).
+  { apply existsb_false_forall. eapply forallb_impl; [|exact Hsim]. intros x. unfold simplech, cNL. lia. }
+  assert (H2 : forallb (fun c => c <? 128) s = true).
+  { eapply forallb_impl; [|exact Hsim]. intros x. unfold simplech. lia. }
+  rewrite H1, H2. reflexivity.
+Qed.
+
+Lemma add_bytes (els : list element) (q : N) (s : pystr) :
+  is_quote q = true -> has_char q s = false -> forallb simplech s = true ->
+  add_to_elements els (98 :: q :: s ++ [q]) IBr = Some (els ++ [(ABytes s, GET)]).
+Proof.
+  intros Hq Hs Hsim. unfold add_to_elements.
+  assert (Hp : is_prefix [cUS; cUS] (98 :: q :: s ++ [q]) = false) by reflexivity.
+  rewrite Hp.
+  assert (Hno : forall x, (x =? 98) = false -> is_quote q = true -> (q =? x) = false ->
+            forallb (fun c => negb (c =? x)) s = true -> has_char x (98 :: q :: s ++ [q]) = false).
+  { intros x H98 _ Hqx Hall. apply has_char_false_forall. cbn [forallb].
+    rewrite forallb_app, Hall. cbn [forallb]. rewrite (N.eqb_sym 98 x), H98, Hqx. reflexivity. }
+  assert (He : has_char cESC (98 :: q :: s ++ [q]) = false).
+  { apply Hno; [reflexivity|exact Hq|unfold is_quote, cSQ, cDQ, cESC in *; lia|].
+    eapply forallb_impl; [|exact Hsim]. intros x. unfold simplech, cESC. lia. }
+  assert (Hb : has_char cBS (98 :: q :: s ++ [q]) = false).
+  { apply Hno; [reflexivity|exact Hq|unfold is_quote, cSQ, cDQ, cBS in *; lia|].
+    eapply forallb_impl; [|exact Hsim]. intros x. unfold simplech, cBS. lia. }
+  rewrite He, Hb. cbn [orb]. rewrite literal_eval_bytes by assumption. reflexivity.
+Qed.
